@@ -17,7 +17,8 @@
 //!
 //! Trace events: [1,c] accept; [2,t] service invoked with call tag t; [7,key] service created a
 //! stream; [3,c,bytes..] one write call on c; [4,c] failed write call on c; [5,c] socket of c
-//! dropped; [6,key] stream dropped; [9] the server future completed.
+//! dropped; [6,key] stream dropped; [8,key,1,v,f] / [8,key,0,0,0] a stream yielded an item / its end;
+//! [9] the server future completed.
 use futures_util::Stream;
 use serde::{Deserialize, Serialize};
 use serde_json::{json, Value};
@@ -227,9 +228,13 @@ impl Stream for CStream {
             None => Poll::Pending,
             Some(i) => match q.remove(i).1 {
                 SEv::Item(v, f) => {
+                    self.trace.borrow_mut().push(vec![8, self.key, 1, v, f]);
                     Poll::Ready(Some(Reply::new(Some(IP { v })).set_continues(cont_of(f))))
                 }
-                SEv::End => Poll::Ready(None),
+                SEv::End => {
+                    self.trace.borrow_mut().push(vec![8, self.key, 0, 0, 0]);
+                    Poll::Ready(None)
+                }
             },
         }
     }
